@@ -161,6 +161,8 @@ class _Collector:
     def _still(self, case, key):
         if not _zero_patterns(case) <= self._patterns:
             return None  # the candidate left the family (a radius became zero / stopped being zero)
+        if self._mag0 >= 1e-3 and 0 < _case_magnitude(case) < 1e-3:
+            return None  # the candidate left the quantified range of magnitudes (0 or 1e-3 .. 1e5)
         try:
             done, fails = _with_alarm(4.0, lambda: self.evaluate(self.mod, case))
             if not done:  # a candidate that makes the library run for seconds is simply not accepted
@@ -177,6 +179,7 @@ class _Collector:
             rec = self.by_key[key]
             case = rec["input"]
             self._patterns = _zero_patterns(case)
+            self._mag0 = _case_magnitude(case)
             t0 = time.time()
             n = 0
             improved = True
@@ -204,6 +207,17 @@ class _Collector:
 
     def failures(self):
         return [self.by_key[k] for k in sorted(self.by_key)]
+
+
+def _case_magnitude(case):
+    """largest absolute coordinate-like number of a case (requested errors, counts and limits excluded)"""
+    m = 0.0
+    for path, x in _leaves(case):
+        if path and path[-1] in _PROTECTED:
+            continue
+        if isinstance(x, float):
+            m = max(m, abs(x))
+    return m
 
 
 def _leaves(obj, path=()):
@@ -553,9 +567,11 @@ def _c05_endpoint(mod, case):
                           "got": "deviation %g at t=%g: %r" % (worst_imp[0], worst_imp[1], pts[worst_imp[1]]),
                           "explanation": "a point of the arc does not satisfy the implicit equation of the ellipse "
                                          "given by SVG F.6.5/F.6.6 (radii scaled up only when too small)"})
-        elif worst_pt[0] > 1e-7 * S:
+        elif worst_pt[0] > 1e-7 * S * max(1.0, max(c["rx"], c["ry"]) / (1e3 * min(c["rx"], c["ry"]))):
+            # position along the ellipse: the parameter is recovered through atan2(a * tan(angle), b), which loses
+            # accuracy in proportion to the axis ratio; 1e-7 of the scale up to a ratio of 1000, proportionally more beyond
             fails.append({"key": "arc-point-wrong-position-on-ellipse", "prop": "C05",
-                          "expected": "point(t) == F.6.5 point at theta1 + t*dtheta (theta1=%g dtheta=%g) within 1e-7*%g" % (
+                          "expected": "point(t) == F.6.5 point at theta1 + t*dtheta (theta1=%g dtheta=%g) within 1e-7*%g (x ratio/1000 for axis ratios beyond 1000)" % (
                               c["theta1"], c["dtheta"], S),
                           "got": "distance %g at t=%g: %r vs %r" % (worst_pt[0], worst_pt[1], pts[worst_pt[1]],
                                                                      f65.arc_point(c, worst_pt[1])),
@@ -1521,6 +1537,8 @@ def _c08_cases(tier, rng):
                 c3, c2, c1 = rng.uniform(-5, 5), rng.uniform(-5, 5), rng.uniform(-5, 5)
             vals.append(_power_cubic(x0, c1, c2, c3))
         d = {"t": "C", "p": [[vals[0][i], vals[1][i]] for i in range(4)]}
+        if max(abs(v) for pt_ in d["p"] for v in pt_) < 1e-3:
+            continue  # the whole curve is microscopic: outside the quantified range (0 or 1e-3 .. 1e5)
         yield {"obj": "segment", "seg": d, "_class": "near-linear-cubic"}
     # ---- arcs: centre form, any rotation, extents from tiny to beyond a full turn
     rots = (0.0, 90.0, 180.0, 270.0, -90.0, 30.0, 45.0, 123.4, -200.0)
@@ -1763,7 +1781,9 @@ def _c15_segment(mod, case):
                               "explanation": "the segment itself met the tolerance but an isometric / uniformly scaled / reversed copy of it does "
                                              "not: its reported length differs from the true arc length by more than the requested error. "
                                              + _C15_NOTES.get(kind, "")})
-            if inv:
+            if inv and abs(L - true) <= _len_tol(e, true):
+                # (when the segment's own length already misses the tolerance - reported above under its accuracy key - a
+                # copy that is measured accurately necessarily differs from it: a consequence, not a second failure)
                 fails.append({"key": "length-invariance:%s" % kind, "prop": "C15", "expected": "length unchanged by rotation, translation, reflection, reversal (2e-9 relative + 20*error: twice the accuracy tolerance)",
                               "got": "; ".join(inv), "explanation": "isometries and reversal must not change the length"})
         except Exception as ex:
